@@ -78,3 +78,25 @@ Theorem C03_order_irrelevant_flat :
   run_inner feat env (compile_options (Level items tail)) None argv2 = OutOk v.
 Proof. exact order_irrelevant_flat. Qed.
 Print Assumptions C03_order_irrelevant_flat.
+
+(* For whole conventional subcommand trees the outcome of a specified vector is a function of what
+   the grammar reads from it (C01_conformance): two vectors the grammar reads alike -- in particular
+   a vector and any permutation of its named occurrences that `denote` does not distinguish -- are
+   both accepted with the same value, or both reported on stderr. *)
+From BpafLemmas Require Import ConvChain ConvTree ConvTreeSound ConvStderr.
+Theorem C03_outcome_depends_on_reading_tree :
+  forall feat env l argv1 argv2,
+  tree_ok l -> plain_cmds l = true ->
+  denote l argv1 = denote l argv2 -> denote l argv1 <> Unspecified ->
+  (exists v, run_inner feat env (compile_options l) None argv1 = OutOk v /\
+             run_inner feat env (compile_options l) None argv2 = OutOk v) \/
+  (exists m1 m2, run_inner feat env (compile_options l) None argv1 = OutStderr m1 /\
+                 run_inner feat env (compile_options l) None argv2 = OutStderr m2).
+Proof.
+  intros feat env l argv1 argv2 Hok Hpl E Hs.
+  destruct (denote l argv1) as [v| |] eqn:D1; [left|right|contradiction Hs; reflexivity].
+  - exists v. split; apply denote_accept_tree; auto.
+  - symmetry in E. destruct (denote_reject_stderr_tree feat env l argv1 Hok Hpl D1) as [m1 H1].
+    destruct (denote_reject_stderr_tree feat env l argv2 Hok Hpl E) as [m2 H2]. eauto.
+Qed.
+Print Assumptions C03_outcome_depends_on_reading_tree.
